@@ -566,7 +566,14 @@ std::ostream& type_t::print_declaration(std::ostream& os) const
         }
     } else if (array) {
         get(0).print_declaration(os) << '[';
-        get_array_size().get_range().second.get(0).print(os) << ']';
+        // "T a[n]" stores the index range [0, n - 1]; "T a[S]" stores the type S itself.
+        const type_t size = get_array_size();
+        const expression_t last = size.get_kind() == RANGE ? size.get_range().second : expression_t{};
+        if (!last.empty() && last.get_kind() == MINUS && last.get_size() == 2)
+            last.get(0).print(os);
+        else
+            size.print_declaration(os);
+        os << ']';
     } else if (label) {
         os << get_label(0);
     } else if (typeDef) {
